@@ -1277,6 +1277,13 @@ def check_head_consumed(run, rule):
                     seq.append(("load", path(x["lhs"])[0], mask, off, x.get("l", 0)))
         moves = [e for e in seq if e[0] == "move"]
         loads = {e[1]: e for e in seq if e[0] == "load"}
+        other_calls = [c for ev in pth if ev[0] in ("stmt", "return") for c in ir.calls_in(ev[1])
+                       if (c.get("callee") or {}).get("cls") == DEC and callee_name(c) != "read_to_buffer"]
+        if other_calls or any(e[2] is None for e in loads.values()):
+            # the head comes through a local or another member function (read_byte(), a head struct): the direct form this
+            # rule reads is not there; the tabulations of the readers (R07.4, R07.6) still see the expanded code
+            run.info["read_cbor_type"] = "head not taken apart directly from m_p[0] in read_cbor_type: R07.14 not applied"
+            continue
         first_move = seq.index(moves[0]) if moves else len(seq)
         problems = []
         if len(moves) != 1 or moves[0][1] != 1:
